@@ -155,7 +155,7 @@ def run(ctx):
     from pyamg import krylov
     rng = ctx.sub('sys')
     cases, meta = [], []
-    nsys = 10 if not ctx.thorough else 60
+    nsys = 16 if not ctx.thorough else 60
     if ctx.search:
         nsys = 40
     K = 6
